@@ -106,6 +106,33 @@ CLAIMED["C06"] = {
     "note": "Placeholder restoration (str.replace loop) is modelled and tested, not proved. Known finding D-13 (separated tags merged).",
     "design": "DESIGN.md §5 C06",
 }
+CLAIMED["C12"] = {
+    "text": "Partial by nature (CPU time of CPython's re and of Marko's parser is runtime behaviour). Proved in Coq: the regex matcher "
+            "of the model never exhausts its fuel for any pattern and input; smart_quotes and ellipses never raise; every rendered "
+            "block and document is empty or ends in a newline for every tree and every wrapper; the fence of a code block is longer "
+            "than any fence-like run in its content. The whole fill_markdown pipeline (renderer, transforms, wrappers, with Marko's "
+            "parse supplied) is modelled, extracted and compared with the implementation on generated and malformed documents; the "
+            "implementation is run under a watchdog on a malformed stream and on pumped families with a growth bound; output "
+            "well-formedness (final newline, no leaked placeholder, no invented control characters) is checked on every run.",
+    "note": "Termination of the Python code is covered only through the model's totality plus correspondence; timing is a test. "
+            "Several genuine defects found here were repaired in /repo (see known_findings.json).",
+    "design": "DESIGN.md §5 C12",
+}
+CLAIMED["C01"] = {
+    "text": "Coq theorems: wrapping keeps the word sequence and changes nothing but the head of later lines (escape); the escaped form "
+            "of ANY whitespace-free word is not a block opener according to a CommonMark line-start specification (Model/BlockStart.v: "
+            "list markers, ATX headings, quotes, fences, rules, setext underlines), hence no wrapped line after the first begins a block, "
+            "for all word lists, widths and columns; code spans and fences are delimited adequately. The unguarded statement (first "
+            "line of each wrap call) is refuted with a witness (Findings/C01_refuted.v). The whole renderer/transform/wrapper "
+            "pipeline is modelled and compared with fill_markdown on generated documents; the specification is validated against "
+            "Marko; the end-to-end claim is decided by re-parsing input and output of the implementation and comparing the trees "
+            "modulo whitespace runs, soft breaks, escapes and CJK/Latin spacing.",
+    "note": "Marko itself is not modelled: 'the parser reads the canonical spelling back as the same tree' is evaluated, not proved. "
+            "21 genuine defects found by this oracle were repaired in /repo; the remaining ones are listed as known findings with narrow "
+            "classifiers (known_findings.json) and the everyday generator avoids their triggers so that new violations surface. "
+            "List tightness is compared under C10, not here.",
+    "design": "DESIGN.md §5 C01",
+}
 PENDING_REASON = "check not built yet in this revision (work in progress; see DESIGN.md §7 staging)"
 
 def main():
